@@ -57,6 +57,11 @@ func (env *specEnv) wildParts(ex ast.Expr) (SliceV, types.Type, []int, bool) {
 	if !ok || !ok2 {
 		return SliceV{}, nil, nil, false
 	}
+	if call, ok := ie.Index.(*ast.CallExpr); ok {
+		if id, ok := call.Fun.(*ast.Ident); ok && id.Name == "wildcap_" {
+			base.Len = base.Cap
+		}
+	}
 	var idx []int
 	for _, f := range fields {
 		sel := env.info.Selections[f]
